@@ -41,6 +41,11 @@ CHECKS["C11"] = dict(
  note="Grids 3x4x3 (quick) and 4x4x4 (thorough), ghost 1..3, <= 3-4 restarts. Same output stride in all restarts. A one-file-per-process layout with a single chunk is not generated (Carpet does not write it). Extra columns returned for the rest of a file group are accepted. Trusted: the generator (validated by the spec-level partition invariant and by the reader itself on all layouts), h5py.",
  technique="TLA+ model of the simulation directory (decompositions, restarts) enumerated by TLC; every state materialised as HDF5 files and read with the real reader, compared bit-for-bit",
  design_ref="DESIGN.md 4.3, 5/C11")
+CHECKS["C12"] = dict(
+ text="ReadCache.tla states the reference semantics of the per-iteration read cache over a fixed simulation (two restarts sharing an iteration, two levels): a read returns Truth whatever the history and leaves behind only entries that hold the data of the (variable, iteration, level, restart) they are filed under; TLC checks CacheWellFiled, CacheOnlyGrows, UncachedReadsLeaveNoTrace and enumerates read histories (all pairs over a reduced alphabet, simulated sequences of 4 over 80 queries: iteration subsets, component vs tensor names, levels, cached/uncached interleaved). Each history is replayed with the real read_data on generated directories in the four layouts; after every call each returned array is compared with the stored data and every dataset of every cache file is decoded and compared with what it is filed under.",
+ note="Exhaustive for 2 reads over 18 queries, 3 reads over 9 (thorough), simulated beyond. The simulation directory is static during a history. Trusted: generator, h5py.",
+ technique="TLA+ reference model of the read cache enumerated by TLC; histories replayed on the real read_data with the on-disk cache decoded after every call",
+ design_ref="DESIGN.md 4.2, 5/C12")
 
 NA = {
  "C17": "Closed-form transcendental solutions (sin, sinh, 2F1, t^(2/3)): no state, history or case analysis for a TLA+ specification to enumerate, and TLC has neither reals nor transcendental functions; a CAS/interval technique would be a different family (DESIGN.md section 6).",
